@@ -896,8 +896,33 @@ def _case_length(run, P):
                                                                                    ".casefold()")) \
                             and any(isinstance(x, ast.Call) and dotted(x.func) == c_.name
                                     for x in ast.walk(init.node)):
+                        # pytools records a name in two places (add_name and __call__), both of which
+                        # call the hook _name_added afterwards: a generator that compares folded names
+                        # records them folded in that hook, or in both places
+                        U = P.cls("pytools.UniqueNameGenerator")
+                        recorders = sorted(nm for nm, mm in U.methods.items() if any(
+                            isinstance(x, ast.Call) and dotted(x.func) == "self.existing_names.add"
+                            for x in ast.walk(mm.node)))
+                        hook_called = all(any(isinstance(x, ast.Call) and dotted(x.func) == "self._name_added"
+                                              for x in ast.walk(U.methods[nm].node)) for nm in recorders)
+                        if not recorders or not hook_called:
+                            raise AnalysisError("pytools.UniqueNameGenerator: where names are recorded is not read")
+
+                        def folds_into_books(mm):
+                            return mm is not None and any(
+                                isinstance(x, ast.Call) and dotted(x.func) == "self.existing_names.add"
+                                and any(k in ast.unparse(x) for k in (".lower()", ".upper()", ".casefold()"))
+                                for x in ast.walk(mm.node))
+                        covered = folds_into_books(c_.methods.get("_name_added")) or all(
+                            folds_into_books(c_.methods.get(nm)) for nm in recorders)
+                        run.ob("C13.case", c_, ic.node, covered,
+                               construct=f"{c_.name} compares folded names and records every name folded: in "
+                                         f"_name_added, or in each of {recorders}",
+                               why="a generated name is entered by __call__, not by add_name: recorded with "
+                                   "its capitals it is never seen as conflicting, and 'X' then 'x' get "
+                                   "identifiers that differ in case only")
                         raise AnalysisError(f"FortranNameManager: case is folded by {c_.name}, not by the "
-                                            "translate function; not decided")
+                                            "translate function; only the recording clause is decided")
             run.ob("C13.case", init, n, folds,
                    construct=f"{norm(n, 90)}: translate function folds case",
                    why="Fortran compares identifiers case-insensitively and the unique-"
